@@ -466,6 +466,13 @@ func (g *gen) closuresAndFuncs() {
 	g.add("func:closure-modifies-local", "int", "n++", "", "n := 1\nf := func() {\nn++\n}\nf()\nf()\nn = n + 1\n"+show("n"))
 	g.add("func:closure-modifies-param", "int", "param", "func f@@(n int) int {\ng := func() {\nn = n * 2\n}\ng()\nn = n + 1\nreturn n\n}\n", out("%v", "f@@(5)"))
 	g.add("func:closure-shadow", "int", "shadow", "", "n := 1\nf := func() int {\nn := 50\nn = n + 1\nreturn n\n}\na := f()\n"+show("a", "n"))
+	// a literal that uses a variable of the enclosing function and also declares
+	// a same-named local in a nested block of its own body
+	g.add("func:closure-write-and-block-shadow", "int", "named", "func f@@(n int) int {\ntotal := 0\nadd := func(k int) {\nif k < 0 {\ntotal := -k\nk = total\n}\ntotal = total + k\n}\nadd(3)\nadd(-4)\nreturn total + n\n}\n", out("%v", "f@@(10)"))
+	g.add("func:closure-write-and-block-shadow", "int", "main", "", "total := 0\nadd := func(k int) {\nif k < 0 {\ntotal := -k\nk = total\n}\ntotal = total + k\n}\nadd(3)\nadd(-4)\n"+show("total"))
+	g.add("func:closure-read-and-block-shadow", "int", "named", "func g@@(limit int) int {\nx := limit\nh := func() int {\nr := x\nif r > 5 {\nx := 100\nr = r + x\n}\nreturn r\n}\nreturn h() + x\n}\n", out("%v %v", "g@@(7)", "g@@(2)"))
+	g.add("func:closure-write-then-shadow-after", "int", "named", "func f@@() int {\nn := 1\nh := func() int {\nn = n + 1\n{\nn := 50\nn++\n}\nreturn n\n}\na := h()\nreturn a*10 + n\n}\n", out("%v", "f@@()"))
+	g.add("func:closure-param-write-and-block-shadow", "int", "named", "func f@@(n int) int {\nh := func(k int) {\nfor i := 0; i < k; i++ {\nn := i\nk = k + n - n\n}\nn = n + k\n}\nh(2)\nh(3)\nreturn n\n}\n", out("%v", "f@@(5)"))
 	g.add("func:immediate", "int", "iife", "", "x := func(a int) int {\nreturn a + 1\n}(4)\n"+show("x"))
 	g.add("func:defer-order", "int", "defer", "func f@@() {\nfor i := 0; i < 3; i++ {\ndefer func(k int) {\n"+out("deferred %v", "k")+"}(i)\n}\n"+out("body")+"}\n", "f@@()\n")
 	g.add("func:defer-local", "int", "defer-sees-local", "func f@@() {\nn := 1\ndefer func() {\n"+out("deferred n=%v", "n")+"}()\nn = n + 1\nn++\n}\n", "f@@()\n")
